@@ -66,6 +66,37 @@ def oracle(case):
     return None
 
 
+def oracle_same_instance(case):
+    """the same relations when the calls are made one after the other on ONE instance"""
+    d = case['doc']
+    upd = case.get('update', False)
+    fresh = real.make_validator(case)
+    r0 = fresh.validate(copy.deepcopy(d), update=upd)
+    e0 = codec.canon_errs(fresh._errors, 2)
+    d0 = codec.canon_val(fresh.document)
+    v = real.make_validator(case)
+    seq = [('validate', lambda: v.validate(copy.deepcopy(d), update=upd)),
+           ('normalized', lambda: v.normalized(copy.deepcopy(d))),
+           ('validated', lambda: v.validated(copy.deepcopy(d), update=upd)),
+           ('validate', lambda: v.validate(copy.deepcopy(d), update=upd))]
+    for name, call in seq:
+        r = call()
+        if name == 'validate':
+            if r != r0 or codec.canon_errs(v._errors, 2) != e0 or codec.canon_val(v.document) != d0:
+                return 'validate on an instance that has processed the document before differs from a fresh validate'
+            if bool(v.errors) != (not r):
+                return 'errors property disagrees with the verdict on a reused instance'
+        elif name == 'validated':
+            if (r is None) != (not r0):
+                return 'validated on a reused instance returned %s but validate returns %s' % ('None' if r is None else 'a document', r0)
+            if codec.canon_errs(v._errors, 2) != e0:
+                return 'validated on a reused instance recorded different errors'
+        else:
+            if (r is None) != (len(v._errors) > 0):
+                return 'normalized on a reused instance returned %s with %d errors' % ('None' if r is None else 'a document', len(v._errors))
+    return None
+
+
 def one(ctx, drv, i, prof, case):
     if cases.accepted(case) is not True:
         ctx.dist('skipped', 'schema not accepted')
@@ -78,6 +109,12 @@ def one(ctx, drv, i, prof, case):
         return
     if msg:
         ctx.fail('C06 oracle: ' + msg, jcase)
+    try:
+        msg2 = oracle_same_instance(case)
+    except Exception as e:
+        msg2 = None
+    if msg2:
+        ctx.fail('C06 oracle: ' + msg2, jcase)
     if drv is None:
         return
     v = real.make_validator(case)
